@@ -136,12 +136,17 @@ structure Sess where
   darr   : List (Nat × DArr) := []
   sdarr  : List (Nat × List Nat) := []
   mem    : Mem := {}
+  /-- `obs=sparse`: content is printed only by the `observe` op; `quiet` = this line prints none -/
+  sparse : Bool := false
+  quiet  : Bool := false
 
 def obsM (s : Sess) : String :=
+  if s.quiet then "" else
   (match s.model with
    | none => "size=- keys=[] vals=[]"
    | some t => s!"size={t.size} {fmtMap t.abs}") ++ fmtDarrObs (s.darr.map fun d => (d.1, d.2.contents))
 def obsS (s : Sess) : String :=
+  if s.quiet then "" else
   (match s.spec with
    | none => "size=- keys=[] vals=[]"
    | some m => s!"size={Spec.Map.size m} {fmtMap m}") ++ fmtDarrObs s.sdarr
@@ -163,6 +168,9 @@ def slotOf (c : Cmd) : Nat := c.nat "to" (c.nat "o" 0)
 /-- returns the new session, the spec line and the model line -/
 def step (s : Sess) (c : Cmd) : Sess × String × String :=
   let m := s.mem.begin c.sched
+  let isNew := c.op == "new" || c.op == "new_default"
+  let sparse := if isNew then c.str "obs" == some "sparse" else s.sparse
+  let s := { s with sparse := sparse, quiet := sparse && c.op != "observe" }
   let slot := slotOf c
   match c.op with
   | "new" | "new_default" =>
@@ -170,7 +178,7 @@ def step (s : Sess) (c : Cmd) : Sess × String × String :=
     let cap := if c.op == "new" then c.nat "cap" 16 else Gen.HASHTABLE_DEFAULT_CAPACITY
     let (st, t, m) := HashTable.new cfg cap (if c.op == "new" then .conf else .libc) m
     let (sst, sp) := if c.fired > 0 then (Stat.errAlloc, none) else (Stat.ok, some Spec.Map.empty)
-    lines { cfg := cfg, model := t, spec := sp, mem := m, darr := s.darr, sdarr := s.sdarr } (fmtStat sst) (fmtStat st)
+    lines { cfg := cfg, model := t, spec := sp, mem := m, darr := s.darr, sdarr := s.sdarr, sparse := s.sparse, quiet := s.quiet } (fmtStat sst) (fmtStat st)
   | "arr_add" | "arr_destroy" =>
     match s.darr.find? (·.1 == slot), s.sdarr.find? (·.1 == slot) with
     | some (_, a), some (_, l) =>
@@ -184,7 +192,7 @@ def step (s : Sess) (c : Cmd) : Sess × String × String :=
   | "destroy" =>
     let m := match s.model with | some t => t.destroy m | none => m
     let m := s.darr.foldl (fun m d => d.2.destroy m) m
-    lines { cfg := s.cfg, mem := m } "st=-" "st=-"
+    lines { cfg := s.cfg, mem := m, sparse := s.sparse, quiet := s.quiet } "st=-" "st=-"
   | _ =>
   match s.model, s.spec with
   | some t, some sp =>
@@ -265,6 +273,7 @@ def step (s : Sess) (c : Cmd) : Sess × String × String :=
       | none => lines { s with mem := m } "st=- noiter" "st=- noiter"
     | "destroy_table" =>
       lines { s with model := none, spec := none, iter := none, mem := t.destroy m } "st=-" "st=-"
+    | "observe" => lines { s with mem := m } "st=-" "st=-"
     | _ => lines { s with mem := m } "st=- badop" "st=- badop"
   | _, _ => lines { s with mem := m } "st=- nosession" "st=- nosession"
 
